@@ -77,6 +77,7 @@ class Profile:
         self.text_pool = None
         self.full_attrs = False         # channel dimension/element_limit/axis and all frame attributes too
         self.origin_sets_differ = False  # origins of one logical file may sit in differently named ORIGIN sets
+        self.preludes = False           # an earlier write of another small file in the same process (failed or successful)
         self.lf_distinct_sets = True    # with several logical files, every logical file uses its own set names
         for k, v in kw.items():
             if not hasattr(self, k):
@@ -902,6 +903,12 @@ def file_specs(draw, profile):
             w['ocs'] = vrl + draw(st.integers(0, 300))
         elif m == 3:
             w['ocs'] = float(vrl + draw(st.integers(0, 3000)))
+    if profile.preludes:
+        m = draw(st.integers(0, 7))
+        if m < 3:
+            # the process has written before, with the same write options: a write that failed half-way (m = 0, 1) or a
+            # successful one (m = 2). Neither may show in this file.
+            w['prelude'] = ['failed-rows', 'failed-missing', 'ok'][m]
     if profile.windows and rows > 1 and draw(st.booleans()):
         f = draw(st.integers(0, rows - 1))
         t = draw(st.one_of(st.none(), st.integers(f + 1, rows)))
